@@ -5,6 +5,8 @@ type nat =
 | O
 | S of nat
 
+val option_map : ('a1 -> 'a2) -> 'a1 option -> 'a2 option
+
 val fst : ('a1 * 'a2) -> 'a1
 
 val snd : ('a1 * 'a2) -> 'a2
@@ -22,20 +24,48 @@ val compOpp : comparison -> comparison
 
 val add : nat -> nat -> nat
 
+val sub : nat -> nat -> nat
+
 module Nat :
  sig
   val eqb : nat -> nat -> bool
+
+  val leb : nat -> nat -> bool
+
+  val ltb : nat -> nat -> bool
  end
 
+val hd_error : 'a1 list -> 'a1 option
+
+val tl : 'a1 list -> 'a1 list
+
 val nth : nat -> 'a1 list -> 'a1 -> 'a1
+
+val nth_error : 'a1 list -> nat -> 'a1 option
+
+val last : 'a1 list -> 'a1 -> 'a1
 
 val rev : 'a1 list -> 'a1 list
 
 val rev_append : 'a1 list -> 'a1 list -> 'a1 list
 
+val map : ('a1 -> 'a2) -> 'a1 list -> 'a2 list
+
+val existsb : ('a1 -> bool) -> 'a1 list -> bool
+
+val forallb : ('a1 -> bool) -> 'a1 list -> bool
+
+val filter : ('a1 -> bool) -> 'a1 list -> 'a1 list
+
+val find : ('a1 -> bool) -> 'a1 list -> 'a1 option
+
+val combine : 'a1 list -> 'a2 list -> ('a1 * 'a2) list
+
 val firstn : nat -> 'a1 list -> 'a1 list
 
 val skipn : nat -> 'a1 list -> 'a1 list
+
+val seq : nat -> nat -> nat list
 
 type positive =
 | XI of positive
@@ -314,8 +344,285 @@ val run_enc : str list -> str
 
 val run_dec : str list -> str
 
+type tid = nat
+
+val exec : ('a1 -> tid -> 'a1 option) -> 'a1 -> tid -> 'a1
+
+val run : ('a1 -> tid -> 'a1 option) -> 'a1 -> tid list -> 'a1
+
+val enabled : ('a1 -> tid -> 'a1 option) -> 'a1 -> tid -> bool
+
+val go :
+  ('a1 -> tid -> 'a1 option) -> ('a1 -> tid -> bool) -> nat -> 'a1 -> tid ->
+  tid list -> 'a1 * tid list
+
+val autonomous :
+  ('a1 -> tid -> 'a1 option) -> ('a1 -> tid -> bool) -> 'a1 -> tid -> bool
+
+val settle :
+  ('a1 -> tid -> 'a1 option) -> ('a1 -> tid -> bool) -> ('a1 -> nat) -> nat
+  -> 'a1 -> tid list -> 'a1 * tid list
+
+val macro1 :
+  ('a1 -> tid -> 'a1 option) -> ('a1 -> tid -> bool) -> ('a1 -> tid -> bool)
+  -> ('a1 -> nat) -> nat -> 'a1 -> tid -> tid list -> 'a1 * tid list
+
+val macro :
+  ('a1 -> tid -> 'a1 option) -> ('a1 -> tid -> bool) -> ('a1 -> tid -> bool)
+  -> ('a1 -> nat) -> nat -> 'a1 -> tid list -> tid list -> 'a1 * tid list
+
+type op =
+| OFirst
+| OLast
+| OGet of nat
+| OStore of bool
+| ODelete of nat
+| OSet
+| OGetS
+| OClose
+
+type outcome =
+| Ok of nat
+| NotFound
+| ErrClosed
+| ErrSealed
+| IOErr
+| MetaErr
+| Panic
+
+type hnd = { h_base : nat; h_cnt : nat; h_sealed : bool; h_closes : nat }
+
+type fin =
+| FUnset
+| FNil
+| FSet of nat list
+
+type st = { s_ref : nat; s_fin : fin; s_open : bool; s_segs : nat list;
+            s_min : nat }
+
+type shared = { g_closed : bool; g_mu : tid option; g_trig : bool;
+                g_trig_closed : bool; g_await : nat option;
+                g_chans : bool list; g_cur : nat; g_states : st list;
+                g_hnds : hnd list; g_meta_closes : nat; g_stable : nat }
+
+type kont =
+| KRet
+| KUnlock
+| KOuter of nat
+| KRot
+
+type pc =
+| PIdle
+| PChecked
+| PLock
+| PLocked
+| PWaiting of nat
+| PRecvAwait of nat
+| PRelock
+| PLoad
+| PLoaded of nat
+| PAcq of nat
+| PBody of nat
+| PTrig of nat
+| PSend of nat
+| PM0 of kont
+| PM1 of nat * kont
+| PM2 of nat * kont
+| PM3 of nat * kont
+| PM4 of nat * fin * kont
+| PRel of nat * outcome * kont
+| PLast of nat * outcome * kont
+| PRun of nat list * outcome * kont
+| PUnl of outcome
+| PCFlag
+| PCLock
+| PCLocked
+| PC3
+| PC4
+| PC5 of nat
+| PC6 of nat
+| PCSwapped of nat
+| PC8 of nat
+| PRIdle
+| PRRecv
+| PRLock
+| PRLocked
+| PRExit
+| PRT3
+| PRT4 of nat option
+| PRT5 of nat option
+| PRDone
+| PPanic
+
+type thread = { t_rot : bool; t_prog : op list; t_outs : outcome list;
+                t_pc : pc }
+
+type sys = { sh : shared; ths : thread list }
+
+val upd : 'a1 list -> nat -> 'a1 -> 'a1 list
+
+val dst : st
+
+val dh : hnd
+
+val getst : shared -> nat -> st
+
+val geth : shared -> nat -> hnd
+
+val set_states : shared -> st list -> shared
+
+val set_hnds : shared -> hnd list -> shared
+
+val set_mu : shared -> tid option -> shared
+
+val set_closed : shared -> shared
+
+val set_trig : shared -> bool -> bool -> shared
+
+val set_await : shared -> nat option -> bool list -> shared
+
+val set_cur : shared -> nat -> st list -> shared
+
+val set_meta : shared -> nat -> nat -> shared
+
+val st_ref : st -> nat -> st
+
+val st_fin : st -> fin -> st
+
+val upd_st : shared -> nat -> st -> shared
+
+val close_h : hnd -> hnd
+
+val close_all : hnd list -> nat list -> hnd list
+
+val tail_of : st -> nat
+
+val last_index : shared -> st -> nat
+
+val first_index : shared -> st -> nat
+
+val seg_for : shared -> nat list -> nat -> nat option -> nat option
+
+val get_log : shared -> st -> nat -> outcome
+
+val split_head : shared -> nat -> nat -> nat list -> nat list * nat list
+
+val new_hnd : nat -> hnd
+
+val mk_state : nat list -> nat -> st
+
+val publish : shared -> st -> shared
+
+val do_rotate : shared -> nat -> shared * fin
+
+val do_trunc_head : shared -> nat -> nat -> shared * fin
+
+val cur_op : thread -> op option
+
+val setpc : thread -> pc -> thread
+
+val finish : thread -> outcome -> thread
+
+val panic : thread -> thread
+
+val is_locking : op -> bool
+
+val continue : thread -> outcome -> kont -> thread
+
+val step_thread : shared -> tid -> thread -> (shared * thread) option
+
+val step : sys -> tid -> sys option
+
+val init_shared : shared
+
+val caller : op list -> thread
+
+val rotator : thread
+
+val init : op list list -> op list list -> sys
+
+val pc_point : pc -> bool
+
+val th_done : thread -> bool
+
+val th_parked : thread -> bool
+
+val parked : sys -> tid -> bool
+
+val pre_lock : thread -> bool
+
+val th_blocked : thread -> bool
+
+val skip : sys -> tid -> bool
+
+val nthreads : sys -> nat
+
+val split_on_aux : n -> str -> str -> str list
+
+val split_on : n -> str -> str list
+
+val hexnat : str -> nat option
+
+val nat_hex : nat -> str
+
+val all_some : 'a1 option list -> 'a1 list option
+
+val parse_op14 : str -> op option
+
+val parse_prog14 : str -> op list option
+
+val show_outcome : op -> outcome -> str
+
+val join_with : n -> str list -> str
+
+val zip_show : op list -> outcome list -> str list
+
+val fuel14 : nat
+
+val macro14 : sys -> tid -> tid list -> sys * tid list
+
+val run_call : nat -> sys -> tid -> nat -> tid list -> sys * tid list
+
+val run_free : nat -> sys -> tid -> tid list -> sys * tid list
+
+val run_setup : nat -> sys -> tid -> tid -> tid list -> sys * tid list
+
+val callers_done : sys -> nat -> bool
+
+val round : sys -> tid list -> tid list -> sys * tid list
+
+val drain : nat -> nat -> sys -> tid list -> sys * tid list
+
+val finish_rot : nat -> sys -> tid -> tid list -> sys * tid list
+
+val micro14 : op list -> op list list -> tid list -> tid list
+
+val s_dl : str
+
+val s_rot : str
+
+val s_mc : str
+
+val s_open0 : str
+
+val s_multi : str
+
+val has_closed : thread -> op list -> bool
+
+val observe14 : op list list -> sys -> str
+
+val parse_sched : str -> tid list option
+
+val run_c14 : str list -> str
+
+val k_c14 : str
+
+val run_sched : str list -> str
+
 val k_enc : str
 
 val k_dec : str
+
+val k_sched : str
 
 val run_line : str -> str
